@@ -436,6 +436,8 @@ def patchAllShared (n : Json) : List (Hunk × List (Option Nat)) → Outcome Jso
 /-- `d := a.Diff(b, metadata...); a.Patch(d)` on the same in-memory values -/
 def diffPatchShared (m : Metas) (a b : Json) : VDiff × Outcome Json :=
   let d := diffM m a b
-  (d, patchAllShared a (d.map (fun h => (h, aliasIdx m a h.path))))
+  -- since the keyed path element is a fresh object holding only the key fields (o.pathObject), the
+  -- diff no longer aliases the members of the document
+  (d, patchAll a d)
 
 end Jd.V1
